@@ -179,7 +179,7 @@ func init() {
 				bound = 2
 			}
 			for _, sp := range c17Programs(tier) {
-				its := specItems("C17", sp, bound, allStrats, nil, c17Oracle)
+				its := specItemsMixed("C17", sp, bound, 1, allStrats, nil, c17Oracle)
 				for i := range its {
 					// executions of these programs have < 800 visible operations; a short horizon keeps the
 					// (known) non-terminating ones cheap
